@@ -50,9 +50,11 @@ class Hist(object):
     # ---- operations (real code)
     def add(self, order):
         pre = self.resting()
+        before = self.level_value()
         r, self.st, l = self.ex.call('PriceLevel::add_order', [self.lref, order], self.st, self._pc())
         self._did(l)
-        rec = {'op': 'add', 'order': order, 'ret': r, 'pre': pre, 'post': self.resting(), 'agg': self.aggregates()}
+        rec = {'op': 'add', 'order': order, 'ret': r, 'pre': pre, 'post': self.resting(), 'agg': self.aggregates(),
+               'before': before, 'after': self.level_value()}
         self.steps.append(rec)
         return rec
 
@@ -96,7 +98,7 @@ class Hist(object):
         self.st = st2
         self._did(l)
         rec = {'op': 'match', 'q': q, 'taker': taker, 'ret': r, 'pre': pre, 'post': self.resting(),
-               'agg': self.aggregates(), 'live': l, 'cuts': cuts, 'pre_level': pre_level}
+               'agg': self.aggregates(), 'live': l, 'cuts': cuts, 'pre_level': pre_level, 'before': pre_level, 'after': self.level_value()}
         self.steps.append(rec)
         return rec
 
